@@ -26,6 +26,23 @@ Theorem C03_gate_zero_optimal :
 Proof. exact gate_zero_optimal. Qed.
 Print Assumptions C03_gate_zero_optimal.
 
+(* The hypothesis "the range types are those of the bounds" cannot be dropped: with a mirrored row type ('>=' row marked UPPER)
+   all four violations are zero, all other hypotheses hold, and the point violates the row.  Hence the bookkeeping invariant
+   _rowTypes[i] = _rangeTypeRational(lhs_i, rhs_i), _colTypes[j] likewise, is compared with the object's state after every
+   solve of a history (checks/C03.py, family 'hist'). *)
+Theorem C03_gate_needs_matching_types :
+  exists g s,
+    gate_zero g s = true /\
+    forall_lt (ncols (g_lp g)) (col_status_ok g (s_primal s)) = true /\
+    forall_lt (nrows (g_lp g)) (row_status_ok g) = true /\
+    forall_lt (nrows (g_lp g)) (fun i => Qeq_bool (vnth (s_slacks s) i) (activity (g_lp g) i (s_primal s))) = true /\
+    forall_lt (ncols (g_lp g)) (fun j => Qeq_bool (vnth (s_redcost s) j) (redcost (g_lp g) (s_dual s) j)) = true /\
+    types_match g = false /\
+    feasible_b (g_lp g) (s_primal s) = false /\
+    check_opt_exact (g_lp g) (s_primal s) (s_dual s) = false.
+Proof. exact gate_needs_matching_types. Qed.
+Print Assumptions C03_gate_needs_matching_types.
+
 (* The four violations are maxima over a non-negative start value: "<= 0" means "= 0". *)
 Theorem C03_violations_nonnegative :
   forall g s, 0 <= bounds_violation g s /\ 0 <= sides_violation g s /\ 0 <= redcost_violation g s /\ 0 <= dual_violation g s.
